@@ -15,7 +15,7 @@ from typing import Iterator, Mapping, Any, List, Optional, Callable
 
 from spil import Sid
 from spil.sid.read.util import first
-from spil.sid.read.tools import unfold_search
+from spil.sid.read.tools import unfold_search, is_alias_search
 
 
 class Getter:
@@ -91,7 +91,7 @@ class Getter:
         """
         # shortcut if Sid is not a search
         sid = Sid(search_sid)
-        if sid and not sid.is_search():
+        if sid and not sid.is_search() and not is_alias_search(sid):
             generator = self.do_get([sid], attributes=attributes, sid_encode=sid_encode)
         else:
             search_sids = unfold_search(search_sid)
